@@ -22,6 +22,9 @@ for d in sorted(glob.glob(os.path.join(ROOT, "seeded", "C*-m*"))):
     mp = os.path.join(d, "meta.json")
     meta = json.load(open(mp))
     r = res.get(sid)
+    if meta.get("status", "").startswith("superseded"):
+        lines.append("| %s | %s | superseded | | | %s |" % (sid, meta["breaks_property"], meta["status"][:160].replace("|", "\\|")))
+        continue
     if r is None:
         lines.append("| %s | %s | not run | | | |" % (sid, meta["breaks_property"]))
         continue
